@@ -1109,7 +1109,7 @@ class Engine:
                 return VConst(f"{v.py}.{attr}", "builtin")
             if v.what == "ext":
                 return VConst(f"{v.py}.{attr}", "ext")
-            if v.what in ("aescipher", "hashobj", "pkcs1cipher"):
+            if v.what in ("aescipher", "hashobj", "pkcs1cipher", "counter"):
                 return VConst((v, attr), "boundmethod")
             if v.what == "class":
                 modname, cname = v.py.split(":")
@@ -1136,6 +1136,35 @@ class Engine:
             st.ghost[name] = VInt(c)
             st.assume(c >= 1)
         return st.ghost[name]
+
+    def ev_ListComp(self, e, st):
+        """[f(x) for x in xs] with a pure element expression over an int sequence: a fresh list with the
+        element-wise characterisation (no filtering, single generator)."""
+        if len(e.generators) != 1 or e.generators[0].ifs or not isinstance(e.generators[0].target, ast.Name):
+            raise Unsupported("list comprehension (only `[f(x) for x in xs]`)")
+        out = []
+        tgt = e.generators[0].target.id
+        for s, src in self.ev(e.generators[0].iter, st):
+            src = self.deref(s, src)
+            if isinstance(src, VRef) and isinstance(s.heap.get(src.ident), dict) and s.heap[src.ident].get("__kind__") == "emptylist":
+                out.append((s, self.new_list(s, [])))
+                continue
+            if not isinstance(src, VSeq):
+                raise Unsupported(f"list comprehension over {src!r}")
+            i = fresh("i", I)
+            s2 = s.fork()
+            s2.env[tgt] = VInt(IS.at(src.t, i)) if src.kind != "str" else VSeq(IS.unit(IS.at(src.t, i)), "str")
+            elt = self.ev1(e.elt, s2)
+            if not isinstance(elt, VInt):
+                raise Unsupported("list comprehension with non-integer elements")
+            r = fresh("comp", ISq)
+            s.assume(IS.len(r) == IS.len(src.t),
+                     z3.ForAll([i], z3.Implies(z3.And(0 <= i, i < IS.len(src.t)), IS.at(r, i) == elt.t),
+                               patterns=[IS.at(r, i), IS.at(src.t, i)]))
+            ident = f"list!{next(_ids)}"
+            s.heap[ident] = VSeq(r, "ilist")
+            out.append((s, VRef(ident, "list")))
+        return out
 
     def ev_Lambda(self, e, st):
         return [(st, VConst((e, dict(st.env)), "lambda"))]
